@@ -350,6 +350,9 @@ func (c *C18) changeOracle(in *hub.Instance, g *c18Ghost, pre c18Stored, boundar
 	if hc {
 		st.Count("holder_updates", 1)
 		adopted := holdersCanon(in.Oracle.GetHolders(in.Ctx()))
+		if adopted == "<nil>" {
+			adopted = "" // the empty list, adopted: stored as nothing
+		}
 		same := int64(0)
 		for i := range c.Vals {
 			if l, ok := g.Holders[fmt.Sprintf("%d/%d", epoch, i)]; ok && holdersCanon(c18Holders(l)) == adopted {
